@@ -51,10 +51,10 @@ def c03_iso(tier):
                     if b - a < 2 and op in ("OP_INSERT", "OP_READ_INVERT"):
                         continue
                     (tl, ta, tb) = tails[(gi + oi) % 3]
-                    if b == a and op in ("OP_APPEND", "OP_APPEND_THEN_INVERT") and not (ta % 8 == 0 and tb % 8 == 0):
-                        # empty receiver + unaligned tail: detach() yields Bitstr::new() (an empty borrowed Cow) and CBMC does
-                        # not get through Cow::to_mut + growth (same exclusion as in the C04 grid, see DESIGN.md 11.2)
-                        (tl, ta, tb) = tails[0]
+                    if b == a and op in ("OP_APPEND", "OP_APPEND_THEN_INVERT"):
+                        # growing an *empty* value: detach() yields Bitstr::new() (an empty borrowed Cow) and CBMC does not get
+                        # through Cow::to_mut + Vec growth (OOM / no verdict; same exclusion as in the C04 grid, DESIGN.md 11.2)
+                        continue
                     insts.append(Instance("op_isolation(s, %d, %d, %d, %d, %d, %s, %s, %s, %d, %d, %d);" % (l, a, b, a2, b2, B[stat], B[keep], op, tl, ta, tb),
                                           "%s on x=bits[%d,%d) of a %dB %s buffer; alias y=bits[%d,%d)%s; tail %dB[%d,%d)" % (
                                               op[3:].lower(), a, b, l, "borrowed" if stat else "owned", a2, b2, ", parent alive" if keep else "", tl, ta, tb)))
